@@ -331,23 +331,27 @@ Fixpoint methods_go (cur : scope) (rname : str) (r : id) (names : list str)
     if has en exts then DPanic 6 else methods_go cur rname r names1 (exts ++ [(en, KFunc f)]) t1 rest
   end.
 
-Definition resource_decl (l : loc) (i : Ast.ident) (ms : list Ast.resource_method) : dres loc :=
+(** [Container::duplicate]: a declared type whose name is already an export of the interface / an import of
+    the world that is not a type (e.g. a function declared earlier) is reported with the error of the
+    opposite declaration order: [dup] is [EDuplicateInterfaceExport] in an interface body and
+    [EDuplicateWorldItem] in a world body. *)
+Definition resource_decl (dup : derr) (l : loc) (i : Ast.ident) (ms : list Ast.resource_method) : dres loc :=
   let n := name_of i in
   let '(t1, r) := add_resource (l_types l) (mkres n None) in
   do cur1 <- register (l_cur l) n (TResource r) ;;
-  if has n (l_exts l) then DPanic 7 else
+  if has n (l_exts l) then DErr dup else
   do (exts, t2) <- methods_go cur1 n r [] (l_exts l ++ [(n, KType (TResource r))]) t1 ms ;;
   DOk (mkloc cur1 (l_uses l) exts t2).
 
 (** [item_type_decl]: the declaration functions register the name first, then the extern is inserted
-    under [assert!(prev.is_none())]. *)
-Definition item_type_decl (l : loc) (d : Ast.item_type_decl) : dres loc :=
+    unless the name is already taken there ([dup]). *)
+Definition item_type_decl (dup : derr) (l : loc) (d : Ast.item_type_decl) : dres loc :=
   match d with
-  | Ast.DResource _ i ms => resource_decl l i ms
+  | Ast.DResource _ i ms => resource_decl dup l i ms
   | _ =>
     do (x, t1) <- plain_decl (l_cur l) (l_types l) d ;;
     do cur1 <- register (l_cur l) (decl_name d) x ;;
-    if has (decl_name d) (l_exts l) then DPanic 8
+    if has (decl_name d) (l_exts l) then DErr dup
     else DOk (mkloc cur1 (l_uses l) (l_exts l ++ [(decl_name d, KType x)]) t1)
   end.
 
@@ -435,7 +439,7 @@ Fixpoint interface_items (root : scope) (pkgs : pkgtab) (l : loc) (items : list 
   | it :: rest =>
     do l1 <- match it with
              | Ast.IIUse u => use_type root pkgs l u
-             | Ast.IIType d => item_type_decl l d
+             | Ast.IIType d => item_type_decl EDuplicateInterfaceExport l d
              | Ast.IIExport _ i r =>
                do (f, t1) <- func_type_ref (l_cur l) (l_types l) r ;;
                if has (name_of i) (l_exts l) then DErr EDuplicateInterfaceExport
@@ -569,7 +573,7 @@ Fixpoint world_items_go (root : scope) (pkgs : pkgtab) (w : wst) (items : list A
   | it :: rest =>
     do w1 <- match it with
              | Ast.WIUse u => do l <- use_type root pkgs (w_loc w) u ;; DOk (mkwst l (w_exp w))
-             | Ast.WIType d => do l <- item_type_decl (w_loc w) d ;; DOk (mkwst l (w_exp w))
+             | Ast.WIType d => do l <- item_type_decl EDuplicateWorldItem (w_loc w) d ;; DOk (mkwst l (w_exp w))
              | Ast.WIImport _ p => world_item_path root pkgs true w p
              | Ast.WIExport _ p => world_item_path root pkgs false w p
              | Ast.WIInclude _ _ _ => DOk w
